@@ -10,7 +10,7 @@ from ..program import AnalysisError, dotted, src
 from ..core import walk_local  # inline-aware
 from .common import handler_catching, handler_body_nodes, raise_ctor_args, translation, where
 from .storelib import facts, node_desc
-from .c01 import response_status
+from .c01 import response_status, return_status
 
 IMPORTERS = [("xandikos.store.git.GitStore", "import_one"), ("xandikos.store.vdir.VdirStore", "import_one")]
 OPENERS = ("open_by_extension", "open_by_content_type")
@@ -322,7 +322,7 @@ def mapping_obligations(ctx, exc: str, precondition_suffix: str):
             raise AnalysisError("%s: no set_body/create_member call" % q)
         for n in sites:
             h, raises, rets = translation(ctx, fi, n, "PreconditionFailure")
-            sts = [response_status(ctx, fi, r.ast.value) for r in rets if r.ast.value is not None]
+            sts = [return_status(ctx, fi, r) for r in rets if r.ast.value is not None]
             ok = h is not None and bool(sts) and all(s == 412 for s in sts)
             obs.append(ctx.ob(ok, q, where(fi, n), "PreconditionFailure -> 412 at %s" % "/".join(c.func.attr for c in n.calls() if isinstance(c.func, ast.Attribute) and c.func.attr in ("set_body", "create_member")),
                               "PreconditionFailure is answered 412", "PreconditionFailure from `%s` is %s" % (node_desc(n), "not caught" if h is None else "answered with %s" % sts)))
